@@ -33,7 +33,9 @@ func scriptText(status string, calls []string) string {
 	case "parse":
 		return "x = 1 +"
 	case "check":
-		return "nosuchfn()"
+		// a check error with a chain of 3 positions (spare capacity in its slice): a shared, not copied,
+		// chain would be overwritten by the second script that uses this one
+		return "len(len(nosuchfn()))"
 	}
 	var b strings.Builder
 	for i, t := range calls {
@@ -151,10 +153,14 @@ func chainProblem(e error, want specErrRec) string {
 	case "missing":
 		tail = ch
 	case "parse", "check":
-		if len(ch) < 1 || ch[0].File != want.Name {
+		k := 0 // the broken script's own error: one or more positions inside that script
+		for k < len(ch) && ch[k].File == want.Name {
+			k++
+		}
+		if k < 1 {
 			return fmt.Sprintf("root cause must be %s's own error, chain=%v", want.Name, ch)
 		}
-		tail = ch[1:]
+		tail = ch[k:]
 	case "cycle":
 		if len(ch) < 1 {
 			return "empty chain"
